@@ -66,6 +66,10 @@ func genC15(r *rt.Rand, tier string, idx int) *world.Scenario {
 		if sc.Extra["standby"] != 0 && r.Chance(0.15) {
 			// the standby serves a follower read: it adopts the leader's revision (and must not keep it when it takes over)
 			cl.Ops = append(cl.Ops, world.Op{K: "waitcommitted"}, world.Op{K: "followersync", Node: 1, W: 0})
+			if r.Chance(0.5) {
+				// ... and the answer to an earlier read arrives after it
+				cl.Ops = append(cl.Ops, world.Op{K: "followersync", Node: 1, W: 0, Limit: int64(1 + r.Intn(3))})
+			}
 		}
 	}
 	if idx%180 == 13 {
